@@ -414,9 +414,11 @@ func (d *Do) Evaluation(
 			break
 		}
 
+		// a diagnostic inside the block body must not end the block early: the
+		// rest of the body and its `end` would be read by the enclosing body
 		err = e.Eval(p, ctx, nextT)
 		if err != nil {
-			return err
+			p.Fatal(ctx, err)
 		}
 	}
 
